@@ -30,6 +30,12 @@ class VMap:
         return m
 
 
+class VNd:
+    """Dense array of symbolic dimension: only its shape (a symbolic integer sequence) is interpreted."""
+    def __init__(self, shape_ref):
+        self.shape_ref = shape_ref
+
+
 class TypeVal:
     """Python type objects used as values (dtype=int, isinstance(x, (int, float)), kind(opt))."""
     def __init__(self, name):
@@ -316,6 +322,10 @@ def fresh_like(ex, st, v, name):
         return VOpt(ex.fresh_bool(name + '_none'), fresh_like(ex, st, v.val, name))
     if isinstance(v, VTuple):
         return VTuple([fresh_like(ex, st, x, f'{name}{i}') for i, x in enumerate(v.items)])
+    if isinstance(v, VNd):
+        t = ex.fresh(name, T.Mat)       # a dense array that is re-shaped to a matrix before any use
+        st.assume(T.rows(t) >= 0, T.cols(t) >= 0)
+        return mk_mat(t)
     if isinstance(v, VArr):
         if v.tag == 'core':
             return mk_core(ex.fresh(name, T.Core))
@@ -355,6 +365,8 @@ def havoc(ex, st, v, name, mutated):
 # attribute / subscript / store / unpack / method
 
 def attribute(ex, st, v, attr, node):
+    if isinstance(v, VNd) and attr == 'shape':
+        return v.shape_ref
     if isinstance(v, VArr):
         if attr == 'shape':
             used('ndarray.shape')
@@ -696,7 +708,22 @@ def method(ex, st, recv, name, args, kwargs, node):
             st.assume(z3.ForAll([k], newarr[k] == z3.If(k < r.n, r.arr[k], o.arr[k - r.n]), patterns=[newarr[k]]))
             r.arr, r.n = newarr, r.n + o.n
             return NONE
+    if isinstance(r, VNd):
+        if name == 'copy':
+            used('ndarray.copy() -> same value, fresh buffer')
+            return r
+        if name == 'reshape' and len(args) == 2 and args[1] == -1:
+            used('X.reshape(a, -1) of a non-empty array -> matrix with a rows and >= 1 columns (size compatibility of the reshape is not modelled)')
+            t = ex.fresh('Zmat', T.Mat)
+            st.assume(T.rows(t) == Z(ex.need_num(st, args[0], node)), T.cols(t) >= 1)
+            return mk_mat(t)
     if isinstance(r, VArr):
+        if name == 'reshape' and r.ndim == 2 and len(args) == 2 and args[1] == -1:
+            used('X.reshape(a, -1) of a non-empty array -> matrix with a rows and >= 1 columns (size compatibility of the reshape is not modelled)')
+            t = ex.fresh('Zmat', T.Mat)
+            st.assume(T.rows(t) == Z(ex.need_num(st, args[0], node)), T.cols(t) >= 1)
+            st.ghost.setdefault('reshaped', []).append((r, t))
+            return mk_mat(t)
         if name == 'copy':
             used('ndarray.copy() -> same value, fresh buffer')
             return r
@@ -1143,6 +1170,13 @@ def reshape(ex, st, a, shp, order, node):
         if _same(st, shp[0], Z(r1)) and _same(st, shp[1], T.mul_canon(n, r2)):
             t = T.unfR(a.t) if a.tag == 'core' and a.t is not None else None
             return VArr((shp[0], shp[1]), t, 'mat' if t is not None else None)
+    if a.ndim == 2 and len(shp) == 3 and o == 'C' and a.tag == 'mat' and a.t is not None:
+        m_, c_ = a.shape
+        s0, s1, s2 = shp
+        if not (isinstance(s0, int) and s0 == -1) and not (isinstance(s1, int) and s1 == -1) \
+                and _same(st, m_, T.mul_canon(s0, s1)) and ((isinstance(s2, int) and s2 == -1) or _same(st, c_, Z(s2))):
+            used("A.reshape(r1, n, -1) (C order) -> foldLC: a row permutation of the Fortran fold")
+            return VArr((s0, s1, c_), T.foldLC(a.t, Z(s0), Z(s1)), 'core')
     if a.ndim == 2 and len(shp) == 3 and o == 'F':
         m_, c_ = a.shape
         s0, s1, s2 = shp
@@ -1164,6 +1198,11 @@ def reshape(ex, st, a, shp, order, node):
         size = T.mul_canon(*shp)
         ex.oblige(st, 'call-pre', 'reshape-preserves-size', Z(a.shape[0]) == size, node)
         return VArr(tuple(shp), None, None, a.dtype)
+    if ex.lenient and len(shp) == 3 and all(not (isinstance(x, int) and x == -1) for x in shp):
+        used('reshape to an explicit 3-D shape -> core of that shape (size compatibility of the reshape is not modelled)')
+        t = ex.fresh('core', T.Core)
+        st.assume(T.d0(t) == Z(shp[0]), T.d1(t) == Z(shp[1]), T.d2(t) == Z(shp[2]))
+        return mk_core(t)
     if ex.lenient:
         used('reshape (unrecognised pattern) -> opaque array (lenient tier)')
         return VOpaque('reshape')
